@@ -247,7 +247,7 @@ def step (st : WSt) (ws : List String) : Option (WSt × String) :=
       | some c =>
         let c := c.deliverRouted
         -- the order in which the topics learn about a dropped connection is not defined: frames are compared sorted
-        let c := if op = "drop" then { c with frames := c.frames.mergeSort (fun a b => s!"{a.1}<-{a.2}" ≤ s!"{b.1}<-{b.2}") } else c
+        let c := if op = "drop" ∨ op = "fg" then { c with frames := c.frames.mergeSort (fun a b => s!"{a.1}<-{a.2}" ≤ s!"{b.1}<-{b.2}") } else c
         let stOut := { st with w := c.w }
         let line := render st.w stOut c { actor := sid, viaChn := viaChn, op := op, what := (rest.getD 1 "") }
         -- the crash snapshot, if one was taken during this op, is what an immediately following `restart` restores
